@@ -254,3 +254,52 @@ func H_C01_mergeArgs(nChunk int, nBind int) {
 	// the inputs are not modified
 	verifAssert(len(chunk.Args) == nChunk && len(bind) == nBind, "MergeArguments does not modify its inputs")
 }
+
+// H_C03_makeForkIds: static fork enumeration over an array root of na
+// elements and a map root with nk distinct arbitrary 1-byte keys, whatever
+// order the key map is iterated in: one fork id per combination, pairwise
+// different, keys in sorted order (so fork numbering is reproducible).
+func H_C03_makeForkIds(na int, nk int) {
+	verifNondetMapOrder(true)
+	arrSrc := &syntax.ArrayExp{Value: make([]syntax.Exp, na)}
+	arrCall := &syntax.CallStm{Id: "A", DecId: "A", Mapping: arrSrc}
+	arrNode := syntax.VerifStageNode("ID.ps.P.A", arrCall, nil, nil)
+	syntax.VerifSetSplit(arrNode, &syntax.SplitExp{Call: arrCall, Source: arrSrc, Value: arrSrc})
+	keys := make([]string, nk)
+	mapSrc := &syntax.MapExp{Kind: syntax.KindMap, Value: map[string]syntax.Exp{}}
+	for i := range keys {
+		keys[i] = verifString("key", 1)
+		for j := 0; j < i; j++ {
+			verifAssume(keys[i] != keys[j])
+		}
+		mapSrc.Value[keys[i]] = &syntax.NullExp{}
+	}
+	mapCall := &syntax.CallStm{Id: "M", DecId: "M", Mapping: mapSrc}
+	mapNode := syntax.VerifStageNode("ID.ps.P.M", mapCall, nil, nil)
+	syntax.VerifSetSplit(mapNode, &syntax.SplitExp{Call: mapCall, Source: mapSrc, Value: mapSrc})
+	var set ForkIdSet
+	set.MakeForkIds(syntax.ForkRootList{arrNode, mapNode}, syntax.NewTypeLookup())
+	verifCover("fork ids enumerated")
+	// (na, nk >= 1: a statically empty source never reaches MakeForkIds — the
+	// call graph prunes such calls as always disabled; checked natively)
+	verifAssert(len(set.List) == na*nk, "C03: one fork per combination of element and key")
+	if len(set.List) != na*nk {
+		return
+	}
+	for i, id := range set.List {
+		verifAssert(len(id) == 2, "C03: every fork id has a part for each root")
+		verifAssert(id[0].Id.ArrayIndex() == i%na, "C03: array indices cycle fastest, in order")
+		for j := 0; j < i; j++ {
+			verifAssert(!id.Equal(set.List[j]), "C03: fork ids are pairwise different")
+		}
+		// every key is used, in ascending order (reproducible numbering)
+		if i >= na {
+			verifAssert(set.List[i-na][1].Id.MapKey() < id[1].Id.MapKey(), "C03/C10: map keys are enumerated in sorted order, independent of map iteration order")
+		}
+		found := false
+		for _, k := range keys {
+			found = found || id[1].Id.MapKey() == k
+		}
+		verifAssert(found, "C03: every fork key is a key of the source map")
+	}
+}
